@@ -92,9 +92,9 @@ static void contract_populate(StringFromTime* s, int64_t ts)
   for (char const* part : g_parts)
   {
     char tmp[24];
-    size_t n = strftime(tmp, sizeof(tmp), part, &ti);
+    size_t n = strftime(tmp, sizeof(tmp), part, &ti);        // concrete for fixed-width parts, symbolic (6..9) for %A
     VASSERT(pos + n < 40);
-    for (size_t k = 0; k < n; k++) out[pos + k] = tmp[k];      // n is concrete: the parts are
+    for (size_t k = 0; k < 12; k++) if (k < n) out[pos + k] = tmp[k];
     pos += n;
     if (part[0] == '%' && part[2] == 0)
     {
@@ -113,8 +113,8 @@ static void check_against_fresh(std::string const& got, int64_t t, char const* p
   if (local) localtime_r(reinterpret_cast<time_t*>(&t), &ti); else gmtime_r(reinterpret_cast<time_t*>(&t), &ti);
   size_t n = strftime(ref, sizeof(ref), pattern, &ti);
   VASSERT(got.size() == n);
-  VASSERT(n == RLEN);                       // rendered length of the query's pattern (concrete per query)
-  for (uint32_t k = 0; k < RLEN; k++) if (k < got.size()) VASSERT(got[k] == ref[k]);
+  VASSERT(n <= RLEN);                       // RLEN = maximum rendered length of the query's pattern (concrete per query)
+  for (uint32_t k = 0; k < RLEN; k++) if (k < n && k < got.size()) VASSERT(got[k] == ref[k]);
 }
 
 static void set_storage(StringFromTime* s, std::pair<size_t, FT>* ix, bool parts)
@@ -179,8 +179,8 @@ extern "C" void h_populate()
   VASSERT(a->_cached_timestamp == b->_cached_timestamp);
   VASSERT(a->_cached_seconds == b->_cached_seconds);
   VASSERT(a->_pre_formatted_ts.size() == b->_pre_formatted_ts.size());
-  VASSERT(b->_pre_formatted_ts.size() == RLEN);
-  for (uint32_t k = 0; k < RLEN; k++) VASSERT(a->_pre_formatted_ts.size() > k && a->_pre_formatted_ts[k] == b->_pre_formatted_ts[k]);
+  VASSERT(b->_pre_formatted_ts.size() <= RLEN);
+  for (uint32_t k = 0; k < RLEN; k++) if (k < b->_pre_formatted_ts.size()) VASSERT(a->_pre_formatted_ts.size() > k && a->_pre_formatted_ts[k] == b->_pre_formatted_ts[k]);
   VASSERT(a->_cached_indexes.size() == b->_cached_indexes.size());
   for (uint32_t k = 0; k < 8; k++) if (k < b->_cached_indexes.size()) { VASSERT(a->_cached_indexes[k].first == b->_cached_indexes[k].first); VASSERT(a->_cached_indexes[k].second == b->_cached_indexes[k].second); }
   vobs(static_cast<uint64_t>(t));
